@@ -107,6 +107,9 @@ def run(ctx):
         cases = gen_state(ctx, 2, [0], ps)
         cases, _ = sc.slice_cases(cases, 6000 if quick else None, ctx.seed + 1)
         run_state_family(ctx, cases, "state-level sequences len 2 path_style=%s" % ps)
+        # the on-demand engine's table class on the same sequences (it overrides the pending-set accessor)
+        sm, _ = sc.slice_cases(cases, 1500 if quick else None, key="statesmart")
+        run_state_family(ctx, [dict(c, smart=True) for c in sm], "state-level sequences len 2 SmartSyncState path_style=%s" % ps)
         # case-insensitive side with names that differ only by case (case-only renames, stale spellings)
         cases = gen_state(ctx, 2, [0], ps, ci=True)
         cases, _ = sc.slice_cases(cases, 3000 if quick else None, key="stateci")
